@@ -401,6 +401,12 @@ partial def loop (h : IO.FS.Stream) (out : IO.FS.Stream) (ds : DState) : IO Unit
         if keys.all (fun k => k == "app rewards") then ds := { ds with model := some { m with rewardsPool := 0 } }
         else ds := { ds with model := some (mergeProjection m d), staleOther := false }
       | none => ds := { ds with model := some (mergeProjection {} d), staleOther := false }
+    else if kind == "live" then
+      -- the live view right after InitChain (`updateValidators` recalculated stakes in memory; the `S init` export is the disk):
+      -- the transaction model starts from what the node really holds
+      match ds.model with
+      | some _ => ds := { ds with model := some { (State.ofDump d) with rewardsPool := 0 } }
+      | none => pure ()
     else if kind == "tx" then
       match ds.lastTx with
       | some lt =>
